@@ -11,7 +11,8 @@ from ._eam_potential import EAMPotential # noqa
 
 
 def _writeHeader(outfile, nrho, drho, nr, dr, cutoff, title, atomicNumber, mass, latticeConstant, latticeType):
-  print(title, file=outfile)
+  # the title is line 1: a line break inside it would displace the two header lines that follow
+  print(u" ".join(title.splitlines()), file=outfile)
   print(u"%d %f %f %s" % (atomicNumber, mass, latticeConstant, latticeType), file=outfile)
   # the grid steps with all their digits ('%f' keeps six decimals: 5/3000 would be declared as 0.001667)
   print(u"%d %.16e %d %.16e %.16e" % (nrho, drho, nr, dr, cutoff), file=outfile)
